@@ -303,6 +303,32 @@ impl Recorder {
                         if i > 0 && self.rng.below(2) == 0 { i -= 1; }
                         continue;
                     }
+                    // a slip: a wrong key (punctuation or a letter) and a backspace that takes it away again - between any two keys of
+                    // the word, so also between a base and its suffix (phonetic method)
+                    if phon && i > 0 && self.rng.below(14) == 0 {
+                        let junk = *self.rng.pick(&['.', ',', ';', '(', 'a', 'k', '-', '"']);
+                        if let Some(jc) = self.keys.code_for_char(junk) {
+                            let o = ctx.key(jc, 0, 0);
+                            if o.kind == "panic" {
+                                self.emit(merge(json!({"ev": "key", "code": jc, "mod": 0, "sel": 0, "fresh": "na", "fwhat": ""}), Self::ret_fields(&o)));
+                                dead = true;
+                                break 'session;
+                            }
+                            w.comp.push(junk);
+                            self.emit(merge(json!({"ev": "key", "code": jc, "mod": 0, "sel": 0, "fresh": "skip", "fwhat": ""}), Self::ret_fields(&o)));
+                            let o = ctx.backspace(false);
+                            if o.kind == "panic" {
+                                self.emit(merge(json!({"ev": "bs", "ctrl": false, "fresh": "na", "fwhat": ""}), Self::ret_fields(&o)));
+                                dead = true;
+                                break 'session;
+                            }
+                            if o.kind == "empty" { w.clear(); } else { w.comp.pop(); }
+                            let (f, what) = self.shadow_compare(&cfg, &w, &o, false, 0);
+                            self.emit(merge(json!({"ev": "bs", "ctrl": false, "fresh": f, "fwhat": what}), Self::ret_fields(&o)));
+                            boundary = o.kind == "empty";
+                            last = o;
+                        }
+                    }
                     // now and then a key WITHOUT a character (keypad Enter / Equals in the phonetic method, a key the layout leaves
                     // unassigned in the fixed one) in the middle of the word: it changes nothing
                     let (code, m) = if !nochar.is_empty() && self.rng.below(25) == 0 { (*self.rng.pick(&nochar), 0u8) } else { i += 1; plan[i - 1] };
